@@ -114,7 +114,7 @@ class SemVer:
                             vec.append(0)
                         vec.append(-1)
                         pre = True
-                    vec.append(ident)
+                    vec.append(int(ident) if ident.isdigit() else ident)
                 else:
                     break  # +build metadata: discard the rest
         else:
